@@ -478,3 +478,48 @@ def check_roundtrip(ctx, rule: str) -> None:
         ctx.bad(rule, from_d if any("model_from_dict" in p or "round trip" in p for p in problems[:1]) else to_d, "dict round trip", problems[0] + (f" (+{len(problems) - 1} more)" if len(problems) > 1 else ""))
     else:
         ctx.ok(rule, to_d, "dict round trip", f"{n_sc} scenarios (named/unnamed, sort on/off): the dict is JSON-representable, loading leaves it unchanged, the loaded model says what the saved one said (infinite / zero / above-default bounds, charge 0, objective coefficients of both signs, nested notes and annotations, list order), a second round trip reproduces the dict (evaluated)")
+
+
+# ---------------------------------------------------------------------------------------- construction
+def check_construct(ctx, rule: str) -> None:
+    """The readers build every reaction as `Reaction(...)` with default bounds and assign the stored bounds afterwards:
+    the real constructor (evaluated here with the real methods of the class) has to succeed for every admissible
+    setting of the configured default bounds - also one whose upper default is negative - and for explicit bounds; it
+    takes its defaults from the configuration *at the time of the call*."""
+    from ..interp import RealMethods, _BoundReal, real_methods_class
+
+    prog = ctx.prog
+    cls = prog.units["cobra.core.reaction"].classes.get("Reaction")
+    init = prog.func("cobra.core.reaction", "Reaction.__init__")
+
+    class _G(S):
+        def __init__(self, *a, **k):
+            self.body = None
+
+    problems = []
+    n = 0
+    for cfg in ((-1000.0, 1000.0), (-10.0, 10.0), (100.0, 10000.0), (-50.0, -1.0), (-5.0, 0.0)):
+        for kwargs, want in (({}, (0.0, cfg[1])), ({"lower_bound": -3.0, "upper_bound": 7.0}, (-3.0, 7.0)), ({"lower_bound": None, "upper_bound": None}, cfg), ({"lower_bound": 2000.0, "upper_bound": 3000.0}, (2000.0, 3000.0))):
+            n += 1
+            stubs = {"isinstance": lambda it_, ev, c, a, k: isinstance(a[0], str) if norm(c.args[1]).split(".")[-1] == "str" else False}
+            for mod in ("cobra.core.gene", "cobra.core", "cobra"):
+                stubs[f"{mod}.GPR"] = lambda it_, ev, c, a, k: _G()
+            it = Interp(prog, (S, RealMethods, _BoundReal), [f.qualname for f in prog.all_funcs() if f.qualname.startswith(("cobra.core.reaction.Reaction.", "cobra.core.object.Object."))], stubs, globals_={})
+            it.config.lower_bound, it.config.upper_bound = cfg
+            RxS = real_methods_class("ReactionStandIn", prog, cls, it, bases=(S,), skip=("__setstate__", "__getstate__"))
+            r = RxS()
+            what = f"Reaction('R1'{''.join(f', {k}={v!r}' for k, v in kwargs.items())}) with the configured default bounds {cfg}"
+            try:
+                it.call(init, ["R1"], dict(kwargs), selfobj=r)
+            except EvalRaise as exc:
+                problems.append(f"{what} raises {exc.exc_type}: a reader builds the reaction first and assigns the stored bounds afterwards, so no model can be loaded under this configuration")
+                continue
+            except Unknown as exc:
+                raise AnalysisError(f"C11.construct: {what} cannot be evaluated: {exc}")
+            got = (object.__getattribute__(r, "__dict__").get("_lower_bound"), object.__getattribute__(r, "__dict__").get("_upper_bound"))
+            if got != want:
+                problems.append(f"{what} has bounds {got}, expected {want}")
+    if problems:
+        ctx.bad(rule, init, "Reaction construction", "; ".join(list(dict.fromkeys(problems))[:2]))
+    else:
+        ctx.ok(rule, init, "Reaction construction", f"{n} cases (5 settings of the configured default bounds incl. a negative upper default x default / explicit / None / above-default bounds): the constructor succeeds and takes missing bounds from the configuration in force")
